@@ -412,10 +412,14 @@ fn expand_union(
         )
     })?;
 
-    Ok((
-        attrs.common.bounds.0.clone().into_iter().collect(),
-        quote! { derive_more::core::write!(__derive_more_f, #fmt) },
-    ))
+    // A sole bare placeholder delegates to its argument, as it does for structs and enums.
+    let body = if let Some((expr, trait_ident)) = fmt.transparent_call() {
+        quote! { derive_more::core::fmt::#trait_ident::fmt(&(#expr), __derive_more_f) }
+    } else {
+        quote! { derive_more::core::write!(__derive_more_f, #fmt) }
+    };
+
+    Ok((attrs.common.bounds.0.clone().into_iter().collect(), body))
 }
 
 /// Helper struct to generate [`Display::fmt()`] implementation body and trait
